@@ -262,3 +262,13 @@ Fixpoint reset_scan (tr : list fstep) (pending : option (list chdr)) : bool :=
   end.
 
 Definition c17_reset_trace_ok (cfg : vconfig) (tr : list fstep) : bool := reset_scan tr (Some []).
+
+(* ---- the form of c17_fin_after_data_ok that is a theorem of every model trace (Conn/C17_Step.v):
+   the poll does not die of a transport error.  (The one way into FinWait1 with data unsent is the
+   channel-closed arm of recv_loop - teardown of the socket, not a close on own initiative - whose FIN
+   then fails on the transport: c17_fin_after_data_ok_refuted.) ---- *)
+Definition c17_not_err_send (r : fresult) : bool :=
+  match r with FrPoll (PollReadyErr ErrSend) _ _ _ => false | _ => true end.
+
+Definition c17_fin_after_data_noerr (cfg : vconfig) (st : fstep) : bool :=
+  if c17_not_err_send (fs_result st) then c17_fin_after_data_ok cfg st else true.
